@@ -3,11 +3,12 @@
 (* Chained runs of the package's own four stages on generated references,  *)
 (* with the cluster centroids as the query.  One NDJSON line per           *)
 (* observation:                                                            *)
-(*  kind "artefacts": {"st":{genes,clusters,leaves}, "rm":{genes,pairs,    *)
-(*        stats_path_ok}, "lk":{keys,genes}, "mp":{used,levels},           *)
+(*  kind "artefacts": {"st":{genes,clusters,leaves}, "rm":{genes,pairs,idx, *)
+(*        back}, "lk":{keys,genes}, "mp":{used,levels}, "nleaves":n,       *)
 (*        "parents":[..], "qgenes":[..], "hier":[..]}                      *)
-(*  kind "centroid": {"q":[..], "own":l, "M":[[leaf,[..]],..],             *)
-(*        "draws":[[pos,..],..], "child":c, "B":B, "out":{"a","k","one"}}  *)
+(*  kind "centroid": {"own":l, "B":B, "path":[..], "assigned":[..],         *)
+(*        "visits":[{"q":[..], "M":[[leaf,[..]],..], "draws":[[pos,..],..],*)
+(*                   "child":c, "out":{"a","k","one"}}, ..]}               *)
 (* Clause numbers 18xx.                                                    *)
 (***************************************************************************)
 EXTENDS Pipeline, TLC, Json, IOUtils
@@ -15,18 +16,21 @@ Traces == ndJsonDeserialize(IOEnv.TRACE_FILE)
 N == Len(Traces)
 VARIABLES tid, l
 vars == <<tid, l>>
+Visits(t) == [i \in 1..Len(t.visits) |->
+    LET v == t.visits[i] IN
+    [q |-> v.q,
+     M |-> [lf \in {v.M[j][1] : j \in 1..Len(v.M)} |-> v.M[CHOOSE j \in 1..Len(v.M) : v.M[j][1] = lf][2]],
+     draws |-> [d \in 1..Len(v.draws) |-> {v.draws[d][j] + 1 : j \in 1..Len(v.draws[d])}],
+     child |-> v.child, out |-> [a |-> v.out.a, k |-> v.out.k, one |-> v.out.one]]]
 Err(t) ==
     IF t.kind = "artefacts" THEN
         PipelineErr([genes |-> t.st.genes, clusters |-> Rng(t.st.clusters), leaves |-> Rng(t.st.leaves)],
-                    [genes |-> t.rm.genes, pairs |-> {<<t.rm.pairs[i][1], t.rm.pairs[i][2]>> : i \in 1..Len(t.rm.pairs)},
-                     stats_path_ok |-> t.rm.stats_path_ok],
+                    [genes |-> t.rm.genes, pairs |-> [i \in 1..Len(t.rm.pairs) |-> <<t.rm.pairs[i][1], t.rm.pairs[i][2]>>],
+                     idx |-> t.rm.idx, back |-> t.rm.back],
                     [keys |-> Rng(t.lk.keys), genes |-> Rng(t.lk.genes)],
                     [used |-> Rng(t.mp.used), levels |-> t.mp.levels],
-                    Rng(t.parents), Rng(t.qgenes), t.hier)
-    ELSE IF t.kind = "centroid" THEN
-        LET M == [lf \in {t.M[i][1] : i \in 1..Len(t.M)} |-> t.M[CHOOSE i \in 1..Len(t.M) : t.M[i][1] = lf][2]]
-            draws == [d \in 1..Len(t.draws) |-> {t.draws[d][i] + 1 : i \in 1..Len(t.draws[d])}]
-        IN CentroidErr(t.q, t.own, M, draws, t.child, t.B, [a |-> t.out.a, k |-> t.out.k, one |-> t.out.one])
+                    t.nleaves, Rng(t.parents), Rng(t.qgenes), t.hier)
+    ELSE IF t.kind = "centroid" THEN CellErr(Visits(t), t.own, t.B, t.path, t.assigned)
     ELSE 1899
 \* registers 1..N progress, N+1..2N clause, 2N+1..3N whether the premise held (evidence)
 ASSUME \A i \in 1..(2 * N) : TLCSet(i, 0)
@@ -36,12 +40,10 @@ Step == /\ l = 1
            IF c = 0 THEN l' = 2 /\ UNCHANGED tid ELSE TLCSet(N + tid, c) /\ FALSE
 Spec == Init /\ [][Step]_vars
 Track == IF TLCGet(tid) < l THEN TLCSet(tid, l) ELSE TRUE
-Report == \A i \in 1..N : PrintT(<<"VERDICT", i, TLCGet(i), 2, TLCGet(N + i)>>)
-\* which centroid observations are inside the claim (premise holds): printed for the evidence
-PremiseHolds(t) == t.kind = "centroid" /\
-    LET M == [lf \in {t.M[i][1] : i \in 1..Len(t.M)} |-> t.M[CHOOSE i \in 1..Len(t.M) : t.M[i][1] = lf][2]]
-        draws == [d \in 1..Len(t.draws) |-> {t.draws[d][i] + 1 : i \in 1..Len(t.draws[d])}]
-    IN Premise(t.q, t.own, M, draws)
-ReportPremise == PrintT(<<"PREMISE", Cardinality({i \in 1..N : PremiseHolds(Traces[i])}),
-                          Cardinality({i \in 1..N : Traces[i].kind = "centroid"})>>)
+\* evidence: how many of the node visits of centroid cells are inside the claim
+InClaim == LET cs == {i \in 1..N : Traces[i].kind = "centroid"} IN
+    PrintT(<<"CLAIMED",
+             FoldSet(LAMBDA i, acc : acc + Cardinality(Claimed(Visits(Traces[i]), Traces[i].own)), 0, cs),
+             FoldSet(LAMBDA i, acc : acc + Len(Traces[i].visits), 0, cs)>>)
+Report == (\A i \in 1..N : PrintT(<<"VERDICT", i, TLCGet(i), 2, TLCGet(N + i)>>)) /\ InClaim
 =============================================================================
